@@ -13,10 +13,10 @@ import vlib
 # Deviations of today's /repo from the as-intended model (TRUE = what the code does today; see known_findings_c13.notes.md).
 # When /repo is repaired by a `fix:` commit, flip the switch: the binding then demands the repaired behaviour.
 DEV_BUILT = {
-    "DEV_AccUnknownTmpNoReturn": "TRUE",
-    "DEV_NoteCallBadTopicPanics": "TRUE",
-    "DEV_DelTopicBadNamePanics": "TRUE",
-    "DEV_LeaveOboSilent": "TRUE",
+    "DEV_AccUnknownTmpNoReturn": "FALSE",
+    "DEV_NoteCallBadTopicPanics": "FALSE",
+    "DEV_DelTopicBadNamePanics": "FALSE",
+    "DEV_LeaveOboSilent": "FALSE",
 }
 DEV_INTENDED = {k: "FALSE" for k in DEV_BUILT}
 
